@@ -137,14 +137,15 @@ var initWhitelist = []string{
 	"mime", "mime/multipart", "net/textproto", "path", "path/filepath", "bufio", "slices", "maps", "cmp",
 	"internal/bytealg", "internal/itoa", "internal/stringslite", "encoding/hex", "encoding/base64", "errors_placeholder",
 	"github.com/mailru/easyjson", "github.com/mailru/easyjson/jlexer", "github.com/mailru/easyjson/jwriter", "github.com/mailru/easyjson/buffer",
-	"github.com/josharian/intern", "vendor/golang.org/x/net/http/httpguts", "context_placeholder",
+	"github.com/josharian/intern", "vendor/golang.org/x/net/http/httpguts", "regexp", "regexp/syntax", "math/rand", "io/ioutil", "html", "html/template_placeholder",
 }
 
 var initPrefixes = []string{modRootPath}
 
 var allowUninit = []string{
 	"internal/cpu.*", "runtime.*", "internal/godebug.*", "sync.*", "internal/race.*",
-	"net/http.NoBody", // var NoBody = noBody{}: the zero value is the initial value
+	"net/http.NoBody",                    // var NoBody = noBody{}: the zero value is the initial value
+	"os.Stderr", "os.Stdout", "os.Stdin", // only ever passed to logging, which is stubbed
 }
 
 func loadModule(module string, scratch string, extra map[string]string, extraPatterns []string) (*Loaded, error) {
